@@ -1308,7 +1308,8 @@ func init() {
 					"tasks_run":         s.Counters["tasks"],
 					"task_kinds":        s.SortedCounters("taskkind_"),
 					"tasks_whose_solo_run_panicked_(harness health; the panic must then repeat under every schedule)": s.SortedCounters("taskpanic_"),
-					"policies":               map[string]int64{"pct": s.Counters["policy_pct"], "chaos": s.Counters["policy_chaos"]},
+					"policies": map[string]int64{"pct": s.Counters["policy_pct"], "chaos": s.Counters["policy_chaos"]},
+					"cases in which printed output (loggers) was compared line by line with the solo runs": s.Counters["cases_with_printed_output_compared"],
 					"preemptions_by_package": s.SortedCounters("preempt_in_"),
 					"preemption points reached on goroutines the library started itself (never parked; 0 = the library starts none)": s.Counters["preemption_points_reached_on_goroutines_the_library_started_itself_(never parked)"],
 					"yield_sites_in_the_copy":         sites,
